@@ -134,7 +134,7 @@ func runE2E(run *vh.Run, c *vh.Chain, accts []*vh.Acct, n int) {
 		}
 		tampered := attach(c, a, t.build(c, a), mode, seq, sig)
 
-		// unlisted: a third party rewrites the fee granter of a SIGN_MODE_DIRECT transaction
+		// a third party rewrites the fee granter of a SIGN_MODE_DIRECT transaction (the signer's allowance makes it payable)
 		second, secondIsGranter := good, false
 		if grantsOK && mode == signing.SignMode_SIGN_MODE_DIRECT && j%3 == 0 {
 			g := e2eTx{msgs: base.msgs, opts: base.opts}
@@ -177,12 +177,12 @@ func runE2E(run *vh.Run, c *vh.Chain, accts []*vh.Acct, n int) {
 			// the signer's signature still covers the rewritten transaction; who paid?
 			dS := new(big.Int).Sub(balSigner, c.Balance(a.Addr))
 			dG := new(big.Int).Sub(balGranter, c.Balance(granter.Addr))
-			run.Count("e2e.info-unlisted:fee-granter-rewritten-transaction-admitted", 1)
-			if dG.Sign() > 0 && dS.Cmp(fee[0].Amount.BigInt()) < 0 {
-				run.Count("e2e.info-unlisted:fee-then-charged-to-granter-not-signer", 1)
-			}
+			ww := w()
+			ww["signer_paid"], ww["granter_paid"], ww["fee"] = dS.String(), dG.String(), fee[0].Amount.String()
+			viol(run, "e2e-tampered-transaction-admitted:fee_granter", label, ww)
 		default:
-			run.Count("e2e.info-unlisted:fee-granter-rewritten-transaction-refused", 1)
+			run.Count("e2e.fee-granter-rewritten-transaction-refused", 1)
+			run.Nontrivial("e2e|" + modeName + "|fee_granter")
 			run.Distinct("e2e_logs", "granter:"+trunc(res[1].Log, 120))
 		}
 		if j < 1 {
